@@ -328,11 +328,9 @@ func (x *Ctx) syncCallEdges(fn *ssa.Function) []callEdge {
 				}
 			}
 		}
-		for _, a := range ci.Common().Args {
-			if mc, ok := a.(*ssa.MakeClosure); ok && !spawn {
-				if f, ok := mc.Fn.(*ssa.Function); ok {
-					out = append(out, callEdge{ci, f})
-				}
+		if !spawn {
+			for _, f := range closureArgs(ci) {
+				out = append(out, callEdge{ci, f})
 			}
 		}
 	}
